@@ -13,7 +13,7 @@ use crate::irenc;
 use crate::out::Out;
 use crate::rng::Rng;
 use crate::walkgen::*;
-use crate::walkrun::{run_checker, Needs};
+use crate::walkrun::{run_checker_staged, Needs};
 use cwe_checker_lib::intermediate_representation::*;
 use serde_json::{json, Value};
 
@@ -120,12 +120,13 @@ fn knobs(two_cconvs: bool) -> Knobs {
 }
 
 pub fn exec(project: &Project, symbols: &Value) -> Value {
-    let r = run_checker(project, "CWE476", &json!({"symbols": symbols}), Needs::PointerInference);
-    let (reported, panic) = match r {
-        Ok(ws) => (ws.iter().map(|w| json!(w.tids.first().cloned().unwrap_or_default())).collect::<Vec<_>>(), String::new()),
-        Err(p) => (vec![], p),
+    let r = run_checker_staged(project, "CWE476", &json!({"symbols": symbols}), Needs::PointerInference);
+    let (reported, stage, panic) = match r {
+        Ok(ws) => (ws.iter().map(|w| json!(w.tids.first().cloned().unwrap_or_default())).collect::<Vec<_>>(), "", String::new()),
+        Err((stage, p)) => (vec![], stage, p.lines().next().unwrap_or("").to_string()),
     };
-    json!({"ev": "c15", "project": irenc::project(project), "symbols": symbols, "reported": reported, "panic": panic})
+    // stage: where a panic happened ("" none; "fnsig"/"pi": a prerequisite analysis crashed and the check never ran)
+    json!({"ev": "c15", "project": irenc::project(project), "symbols": symbols, "reported": reported, "stage": stage, "panic": panic})
 }
 
 pub fn gen(out: &mut Out, _sub: &str) {
@@ -150,16 +151,20 @@ pub fn gen(out: &mut Out, _sub: &str) {
             }).count();
         (exec(&project, &json!(symbols)), nsrc)
     });
-    let (mut sources, mut reported) = (0u64, 0u64);
+    let (mut sources, mut reported, mut prereq_panics) = (0u64, 0u64, 0u64);
     for (ev, nsrc) in evs {
         let nrep = ev["reported"].as_array().unwrap().len();
         sources += nsrc as u64;
+        if ev["stage"] == "fnsig" || ev["stage"] == "pi" {
+            prereq_panics += 1;
+        }
         reported += nrep as u64;
         // non-trivial: the program has source calls of which some but not all are reported, or >= 2 are reported
         let nontrivial = nsrc >= 1 && nrep >= 1;
         out.emit(vec![ev], nontrivial);
     }
     out.extra.insert("source_calls".into(), json!(sources));
+    out.extra.insert("prerequisite_analysis_panics".into(), json!(prereq_panics));
     out.extra.insert("reported_source_calls".into(), json!(reported));
 }
 
